@@ -348,9 +348,8 @@ def check_generator(ctx, gen: FuncInfo, prop):
             ctx.undecided(rule, "lengths", e.loc(), "cannot bound the number of interval lengths from below", found=repr(num.nf))
     # shifts per length: the comprehension ranges
     loops = main_loop(p, gen.qualname)
-    comps = [ev for ev in p.events if ev.kind == "comprehension"]
-    if len(loops) != 1 or len(comps) < 2:
-        ctx.undecided(rule, "shifts", gen.loc(), "generator is not one loop over lengths with comprehensions for starts and ends")
+    if len(loops) != 1:
+        ctx.undecided(rule, "shifts", gen.loc(), "generator is not one loop over lengths producing starts and ends")
         return
     lp = loops[0]
     ln = lp.var.nf if isinstance(lp.var, Num) else None
@@ -370,25 +369,38 @@ def check_generator(ctx, gen: FuncInfo, prop):
             sl = getattr(src, "slice_of", None)
             if sl is not None and isinstance(sl[0], ListV):
                 role_of[id(sl[0])] = "starts" if k == 0 else "ends"
+    from ..values import RangeV
+
     comp_role = {}
     for ev in p.events:
         if ev.kind == "list_extend" and id(ev.data["lst"]) in role_of and isinstance(ev.data["value"], ListV) and getattr(ev.data["value"], "comp", None) is not None:
             comp_role[id(ev.data["value"])] = role_of[id(ev.data["lst"])]
+    # the producers of positions per length: a comprehension extended into the list (idiom A), or an append inside an
+    # inner loop over the shifts (idiom B).  Either way: (role, range of the shift index, element, its index variable)
+    comps = []
+    for ev in p.events:
+        if ev.kind == "comprehension" and comp_role.get(id(ev.data["result"])) is not None:
+            comps.append(_Producer(comp_role[id(ev.data["result"])], ev.data["iter"], ev.data["elem"], ev, Atom("lv", ev.data["loop"].lid).key if ev.data.get("loop") is not None else None))
+        elif ev.kind == "list_append" and id(ev.data["lst"]) in role_of and len(ev.loops) >= 2 and ev.loops[0] is lp:
+            inner = ev.loops[-1]
+            rng = inner.info.get("range")
+            it = RangeV(Num(rng[0], (), "int"), Num(rng[1], (), "int"), Num(rng[2], (), "int")) if rng is not None else None
+            comps.append(_Producer(role_of[id(ev.data["lst"])], it, ev.data["value"], ev, Atom("lv", inner.lid).key))
+    if len(comps) < 2:
+        ctx.undecided(rule, "shifts", gen.loc(), "generator is not one loop over lengths with comprehensions (or an inner loop of appends) for starts and ends")
+        return
+    ivars = {c.lvkey for c in comps if c.lvkey is not None}
     start_elem = end_shift = None
     for ce in comps:
-        it = ce.data["iter"]
-        from ..values import RangeV
-
-        role = comp_role.get(id(ce.data["result"]))
-        if role is None:
-            continue
+        it = ce.it
+        role = ce.role
         if not isinstance(it, RangeV):
             ctx.undecided(rule, "shifts", ce.loc(), "shift positions are not generated from a range")
             continue
         cnt = it.hi.nf - it.lo.nf
         lb2 = lower_bound(cnt, assume2, positive)
         ctx.check(lb2 is not None and lb2 >= 1, rule, f"shifts|{role}", ce.loc(), "every length yields at least one interval", found=f"{cnt!r} (lower bound {lb2})", expected=">= 1")
-        elem = ce.data["elem"]
+        elem = ce.elem
         a = single_atom(elem.nf) if isinstance(elem, Num) else None
         inner = a.args[1] if a is not None and a.kind == "app" and a.args[0] == "int" else (elem.nf if isinstance(elem, Num) else None)
         ia = single_atom(inner) if inner is not None else None
@@ -408,7 +420,7 @@ def check_generator(ctx, gen: FuncInfo, prop):
         ctx.undecided(rule, "shifts", gen.loc(), "could not find the comprehensions feeding the returned starts and ends")
     # the start and the end of one interval use the same shift
     if start_elem is not None and end_shift is not None:
-        ctx.check(nf_equal(_strip(start_elem), _strip(end_shift)), f"{prop}.d CLIP", "same-shift", comps[0].loc(), "the start and the end of an interval are built from the same shift i*step", found=f"{start_elem!r} vs {end_shift!r}")
+        ctx.check(nf_equal(_strip(start_elem, ivars), _strip(end_shift, ivars)), f"{prop}.d CLIP", "same-shift", comps[0].loc(), "the start and the end of an interval are built from the same shift i*step", found=f"{start_elem!r} vs {end_shift!r}")
     # fix-up of the last interval
     ls = [ev for q in rets for ev in q.events if ev.kind == "list_store"]
     okf = any(isinstance(ev.data["value"], Num) and nf_equal(ev.data["value"].nf, n - lo_) and isinstance(ev.data["index"][0], Num) and ev.data["index"][0].nf.as_const() == -1 for ev in ls)
@@ -460,11 +472,11 @@ def check_generator(ctx, gen: FuncInfo, prop):
     # all shifts but the last leave a full-length interval inside the data: the number of shifts is ceil((n - len)/step)
     # with the same step the positions use, so (n_steps - 1)*step < n - len, and the positions start at shift 0
     for ce in comps:
-        role = comp_role.get(id(ce.data["result"]))
-        it = ce.data["iter"]
+        role = ce.role
+        it = ce.it
         if role != "starts" or not isinstance(it, RangeV) or start_elem is None:
             continue
-        lvc = [a_ for a_ in atoms_of(start_elem).values() if a_.kind == "lv" and "#comp" in str(a_.args[0])]
+        lvc = [a_ for a_ in atoms_of(start_elem).values() if a_.kind == "lv" and a_.key == ce.lvkey]
         if len(lvc) != 1:
             ctx.undecided(rule, "shifts|count", ce.loc(), "cannot isolate the shift index in the start positions")
             continue
@@ -477,8 +489,8 @@ def check_generator(ctx, gen: FuncInfo, prop):
     # starts and ends are generated in pairs: the two comprehensions run over the same range
     rngs = {}
     for ce in comps:
-        role = comp_role.get(id(ce.data["result"]))
-        it = ce.data["iter"]
+        role = ce.role
+        it = ce.it
         if role is not None and isinstance(it, RangeV):
             rngs[role] = it
     if len(rngs) == 2:
@@ -502,12 +514,22 @@ def _strip_int_local(nf):
     return _strip_int(nf)
 
 
-def _strip(nf):
-    """drop int() on integer quantities and give all comprehension variables one name"""
+class _Producer:
+    """one source of interval positions per length: role ('starts' / 'ends'), the range of its shift index, the element"""
+
+    def __init__(self, role, it, elem, ev, lvkey):
+        self.role, self.it, self.elem, self.ev, self.lvkey = role, it, elem, ev, lvkey
+
+    def loc(self):
+        return self.ev.loc()
+
+
+def _strip(nf, ivars=()):
+    """drop int() on integer quantities and give all shift-index variables one name"""
     from .c03 import _strip_int
 
     def f(a):
-        if a.kind == "lv" and "#comp" in str(a.args[0]):
+        if a.kind == "lv" and ("#comp" in str(a.args[0]) or a.key in ivars):
             return sym("i")
         return None
 
